@@ -298,3 +298,20 @@ Proof.
   - destruct F as (F1 & F). split; [|exact F]. destruct (ext (mB st, mS st, idx)) as [[b' s'] o'].
     destruct F1 as (G1 & G2 & G3 & G5). repeat split; try assumption. rewrite G5. ring.
 Qed.
+
+(** ** the budget check of limited mode: the same decision as [BC.bc_limit 1] *)
+Theorem limit_ok_sound : forall code st, limit_ok code = true -> 0 <= l_budget st < 2 ^ 64 ->
+  snd (lrun code st) = (l_budget st <=? 1) /\
+  (snd (lrun code st) = false -> l_budget (fst (lrun code st)) = l_budget st - 1).
+Proof.
+  intros code st H B. destruct code as [|a [|b [|c [|d [|e [|x l]]]]]]; try discriminate.
+  cbn [limit_ok] in H. repeat (apply andb_prop in H; destruct H as [H ?]).
+  destruct a; try discriminate. destruct b as [|c2| | |]; try discriminate. destruct c; try discriminate.
+  destruct d; try discriminate. destruct e; try discriminate.
+  match goal with E : lins_eqb (LCmpRax c2) (LCmpRax 2) = true |- _ => cbn in E; apply Z.eqb_eq in E; subst c2 end.
+  cbn [lrun lstep l_rax l_budget l_below].
+  rewrite (Z.mod_small (l_budget st)) by exact B. change (2 mod 2 ^ 64) with 2.
+  destruct (l_budget st <? 2) eqn:L.
+  - cbn [snd fst]. apply Z.ltb_lt in L. split; [symmetry; apply Z.leb_le; lia|intros D; discriminate].
+  - cbn [snd fst l_budget]. apply Z.ltb_ge in L. split; [symmetry; apply Z.leb_gt; lia|reflexivity].
+Qed.
